@@ -783,29 +783,28 @@ theorem setNext_init_inv : Reseq.Inv (Reseq.setNext (Reseq.init : Reseq.St (Nat 
 
 theorem handleBirth_cases (c : Cfg) (s : St) (ts bdseq id : Nat) (ans : Ans) (now wall : Nat) :
     (ts ≤ s.birthTs ∧ handleBirth c s ts bdseq id ans now wall = (s, [])) ∨
-    (s.birthTs < ts ∧ ¬ (s.life = .birthed ∧ s.bdseq = bdseq) ∧ ans ≠ .ok ∧
+    (s.birthTs < ts ∧ ans ≠ .ok ∧
       handleBirth c s ts bdseq id ans now wall =
         ((issueRebirth c s .invalidPayload now wall).1,
           [.nodeBirth id false] ++ (issueRebirth c s .invalidPayload now wall).2)) ∨
-    (s.birthTs < ts ∧ ((s.life = .birthed ∧ s.bdseq = bdseq) ∨ ans = .ok) ∧
+    (s.birthTs < ts ∧ ans = .ok ∧
       handleBirth c s ts bdseq id ans now wall =
         ({ s with timer := .none, birthTs := ts, life := .birthed, bdseq := bdseq,
                   reseq := Reseq.setNext Reseq.init 1,
                   devices := s.devices.map fun d => (d.1, Life.stale) },
-         ((if s.life = .birthed ∧ s.bdseq = bdseq then [] else [Eff.nodeBirth id true]) ++
-           (cancelTimer s).2) ++
+         ([Eff.nodeBirth id true] ++ (cancelTimer s).2) ++
            (s.devices.filter fun d => d.2 == Life.birthed).map fun d => Eff.devStale d.1)) := by
   unfold handleBirth
   by_cases h1 : ts ≤ s.birthTs
   · exact Or.inl ⟨h1, by simp [h1]⟩
   · right
     simp only [h1, if_false]
-    by_cases h2 : ¬ (s.life = .birthed ∧ s.bdseq = bdseq) ∧ ans ≠ .ok
+    by_cases h2 : ans ≠ .ok
     · left
-      refine ⟨by omega, h2.1, h2.2, ?_⟩
+      refine ⟨by omega, h2, ?_⟩
       rw [if_pos h2]
     · right
-      refine ⟨by omega, by grind, ?_⟩
+      refine ⟨by omega, by simpa using h2, ?_⟩
       rw [if_neg h2]
       simp only [cancelTimer_fst]
 
@@ -813,20 +812,18 @@ theorem handleBirth_spec (c : Cfg) (s : St) (ts bdseq id : Nat) (ans : Ans) (now
     (h : HostInv s) :
     HostInv (handleBirth c s ts bdseq id ans now wall).1 ∧
     Sim s (handleBirth c s ts bdseq id ans now wall).2 (handleBirth c s ts bdseq id ans now wall).1 := by
-  rcases handleBirth_cases c s ts bdseq id ans now wall with ⟨_, he⟩ | ⟨_, _, _, he⟩ | ⟨_, hok, he⟩
+  rcases handleBirth_cases c s ts bdseq id ans now wall with ⟨_, he⟩ | ⟨_, _, he⟩ | ⟨_, hok, he⟩
   · rw [he]; exact ⟨h, Sim.refl s⟩
   · rw [he]
     refine ⟨issueRebirth_inv c s _ now wall h, ?_⟩
     exact (Sim_inert s s [.nodeBirth id false] rfl rfl (by simp [Eff.inert])).trans
       (issueRebirth_sim c s _ now wall)
   · rw [he]
-    have hhd : ∀ e ∈ (if s.life = .birthed ∧ s.bdseq = bdseq then [] else [Eff.nodeBirth id true]) ++
+    have hhd : ∀ e ∈ [Eff.nodeBirth id true] ++
         (cancelTimer s).2, e.devNeutral = true ∧ e.isData = false := by
       intro e he
       rcases List.mem_append.mp he with he | he
-      · split at he
-        · simp at he
-        · simp only [List.mem_singleton] at he; subst he; exact ⟨rfl, rfl⟩
+      · simp only [List.mem_singleton] at he; subst he; exact ⟨rfl, rfl⟩
       · rw [cancelTimer_snd s e he]; exact ⟨rfl, rfl⟩
     have htl : ∀ e ∈ (s.devices.filter fun d => d.2 == Life.birthed).map fun d => Eff.devStale d.1,
         e.nodeNeutral = true ∧ e.isData = false := by
@@ -839,9 +836,7 @@ theorem handleBirth_spec (c : Cfg) (s : St) (ts bdseq id : Nat) (ans : Ans) (now
       simp only [this]; exact h.2.2
     · rw [nodeLife_append, nodeLife_neutral _ (List.map _ _) (fun e he => (htl e he).1),
         nodeLife_append, nodeLife_neutral _ _ (fun e he => by rw [cancelTimer_snd s e he]; rfl)]
-      split
-      · rename_i hs; exact hs.1
-      · rfl
+      rfl
     · intro d
       rw [devLife_append, devLife_neutral _ _ _ (fun e he => (hhd e he).1), devLife_filter_stale]
       simp only [devState, findDev_map_stale]
@@ -984,7 +979,7 @@ theorem rebirth_marks (c : Cfg) (s : St) (i : In) (now wall : Nat) (hinv : HostI
   cases i with
   | nbirth ts bd id ans =>
     simp only [step] at h ⊢
-    rcases handleBirth_cases c s ts bd id ans now wall with ⟨_, he⟩ | ⟨_, _, _, he⟩ | ⟨_, hok, he⟩
+    rcases handleBirth_cases c s ts bd id ans now wall with ⟨_, he⟩ | ⟨_, _, he⟩ | ⟨_, hok, he⟩
     · rw [he] at h; simp at h
     · rw [he] at h ⊢
       simp only [List.mem_append, List.mem_singleton, reduceCtorEq, false_or] at h
@@ -996,7 +991,7 @@ theorem rebirth_marks (c : Cfg) (s : St) (i : In) (now wall : Nat) (hinv : HostI
       exfalso
       rcases List.mem_append.mp h with h | h
       · rcases List.mem_append.mp h with h | h
-        · split at h <;> simp at h
+        · simp at h
         · have := cancelTimer_snd _ _ h; simp at this
       · simp at h
   | ndeath bd => exact ndeath_marks c s bd now wall hinv hclock
@@ -1039,7 +1034,7 @@ theorem stale_no_data (c : Cfg) (s : St) (i : In) (now wall : Nat) (hst : s.life
   cases i with
   | nbirth ts bd id ans =>
     simp only [step]
-    rcases handleBirth_cases c s ts bd id ans now wall with ⟨_, he⟩ | ⟨_, _, _, he⟩ | ⟨_, hok, he⟩
+    rcases handleBirth_cases c s ts bd id ans now wall with ⟨_, he⟩ | ⟨_, _, he⟩ | ⟨_, hok, he⟩
     · rw [he]; simp
     · rw [he]
       intro e hm
@@ -1050,9 +1045,7 @@ theorem stale_no_data (c : Cfg) (s : St) (i : In) (now wall : Nat) (hst : s.life
       intro e hm
       rcases List.mem_append.mp hm with hm | hm
       · rcases List.mem_append.mp hm with hm | hm
-        · split at hm
-          · simp at hm
-          · simp only [List.mem_singleton] at hm; subst hm; rfl
+        · simp only [List.mem_singleton] at hm; subst hm; rfl
         · exact Eff.staleish_not_data e (cancelTimer_staleish _ e hm)
       · obtain ⟨x, _, rfl⟩ := List.mem_map.mp hm
         rfl
